@@ -16,8 +16,11 @@
      not compress (compression off, or no five same-typed values in a row), any line length;
   3. arrays and ranges: with compression off the FULL statement is proved
      (`print_scan_roundtrip_nocompress`: scalars and arrays of scalars, any options); range
-     compression itself (`nxA`, `a b ... c`) is proved only for whole-run lists where stated below,
-     otherwise covered by the correspondence check and the round-trip oracle.
+     compression itself (`nxA`, `a ... c`, `a b ... c`) is proved for lists of scalars in which
+     constant runs of any scalar type and int32 arithmetic runs stand among uncompressed values in
+     any order (`print_scan_roundtrip_runs_partial`); runs inside arrays, runs of arrays and
+     arithmetic runs of 'h' / 'c' / booleans are covered by the correspondence check and the
+     round-trip oracle only.
   The full statement is kept as `print_scan_roundtrip_statement`.
 -/
 import RtoscModel.Proofs.PrettyMsg
@@ -33,6 +36,7 @@ import RtoscModel.Proofs.PrettyTokTimeFrac
 import RtoscModel.Proofs.PrettyTokArray
 import RtoscModel.Proofs.PrettyRunConst
 import RtoscModel.Proofs.PrettyRunInt
+import RtoscModel.Proofs.PrettyRunsExtItems
 import RtoscModel.ArgVal.Expand
 import RtoscModel.Generated.PrettyConst
 namespace Rtosc.Pretty
@@ -719,6 +723,68 @@ theorem range_roundtrip_int (opt : POpt) (hc : opt.compress = true) (a d : Int) 
 
 
 
+/-! ### Tier 3: compressed runs in context -/
+
+/-- **the printer cuts the argument list into the segments `segs`** (`RSeg.tok c`: the value `c`
+    printed as it is, `RSeg.crun n c`: `n` copies of `c` printed as `nxT`, `RSeg.irun a d n`: the
+    int32 run `a, a+d, …, a+(n-1)d` printed as `a ... z` / `a b ... z`), under exactly the side
+    conditions `rtosc_print_arg_vals` uses: `rtosc_convert_to_range`, called at the start of each
+    segment on the whole rest of the list, returns nothing for a `tok`, the whole constant run for
+    a `crun` and the whole arithmetic run for an `irun` (so the runs are maximal: the value behind a
+    run does not continue it); the values are scalars of the property's domain; an arithmetic run
+    satisfies the overflow guards of fixes C10-11 / C10-15 (`hrange` incl. the step behind the last
+    element, `hwidth`) and its count fits an `int32_t`. -/
+inductive PrinterSegments (opt : POpt) : List RSeg → Prop
+  | nil : PrinterSegments opt []
+  | tok (c : Cell) (segs : List RSeg) : ScalarInDomain opt c → ¬ MidnightTime c →
+      convertToRange opt (c :: cellsAll segs) ((cellsAll segs).length + 1) = .ok none →
+      PrinterSegments opt segs → PrinterSegments opt (.tok c :: segs)
+  | crun (n : Nat) (c : Cell) (segs : List RSeg) : ScalarInDomain opt c → ¬ MidnightTime c → 5 ≤ n → n ≤ 2147483647 →
+      convertToRange opt (List.replicate n c ++ cellsAll segs) (n + (cellsAll segs).length) =
+        .ok (some (n, [Cell.rep n 0, c])) →
+      PrinterSegments opt segs → PrinterSegments opt (.crun n c :: segs)
+  | irun (a d : Int) (n : Nat) (segs : List RSeg) : 5 ≤ n → d ≠ 0 →
+      (∀ k : Nat, k ≤ n → -2147483648 ≤ a + (k : Int) * d ∧ a + (k : Int) * d ≤ 2147483647) →
+      ((n : Int) - 1) * d.natAbs ≤ 2147483647 → ((d = 1 ∨ d = -1) → (n : Int) ≤ 2147483647) →
+      convertToRange opt (arithRun a d n ++ cellsAll segs) (n + (cellsAll segs).length) =
+        .ok (some (n, [Cell.rep n 1, Cell.int .i d, Cell.int .i a])) →
+      PrinterSegments opt segs → PrinterSegments opt (.irun a d n :: segs)
+
+theorem PrinterSegments.segmented {opt : POpt} (hopt : OptOK opt) {segs : List RSeg} (h : PrinterSegments opt segs) :
+    Segmented opt segs := by
+  induction h with
+  | nil => exact .nil
+  | tok c segs hd hm hcv _ ih =>
+    have hs := (simpleVal_of_domain opt hopt c hd hm).token
+    exact .tok c segs hs.1 hs.2 hcv ih
+  | crun n c segs hd hm h5 h2 hcv _ ih =>
+    have hs := (simpleVal_of_domain opt hopt c hd hm).token
+    exact .crun n c segs hs.1 hs.2 h5 h2 hcv ih
+  | irun a d n segs h5 hd hr hw h32 hcv _ ih =>
+    exact .irun a d n segs (runHyp_mk a d n h5 hd hr hw h32) hcv ih
+
+/-- **print_scan_roundtrip_runs_partial** (tier 3, "constant and arithmetic runs … compression on",
+    "compressed ranges being compared by their expansion"): the full statement for every list of
+    scalar values of the property's domain in which compressed runs — constant runs of any scalar
+    type (`nxA`), int32 arithmetic runs with any step (`a ... z`, or `a b ... z` when the step is
+    not ±1 or the value in front would be mistaken for the range's left neighbour) — stand among
+    uncompressed values, before, between and behind them, in any number and order: the printed
+    length is the returned length, the checker accepts the text and counts exactly the cells the
+    scanner writes, the scanner consumes the whole text, and the scanned items (`itemsAll`: values,
+    repetitions, ranges) expand to the original values.  Not covered: arrays (hence runs inside
+    arrays and runs of arrays), arithmetic runs of 'h' / 'c' / boolean values, midnight time tags. -/
+theorem print_scan_roundtrip_runs_partial (opt : POpt) (hopt : OptOK opt) (hc : opt.compress = true)
+    (segs : List RSeg) (hseg : PrinterSegments opt segs) :
+    RoundTrips opt ((cellsAll segs).map Item.val) := by
+  have hs := hseg.segmented hopt
+  obtain ⟨st, ret, h1, h2, h3, h4⟩ := runs_roundtrip_cells opt hc segs hs
+  refine ⟨st, ret, itemsAll none segs, (cellsAll segs).map Val.sc, ?_, h2, ?_, ?_, expandList_itemsAll hs none,
+    expandList_valsX _ hs.scalars⟩
+  · rw [flatList_valsX]; exact h1
+  · rw [flatList_itemsAll hs none]; exact h3
+  · rw [flatList_itemsAll hs none]; exact h4
+
+
 /-! ### The constants and tables extracted from the source (Generated/PrettyConst.lean) -/
 
 /-- the order in which the model tries the numeric formats -/
@@ -806,6 +872,34 @@ example : NotCompressed ⟨true, 2, 80, true⟩ [.int .i 1, .int .i 7, .int .i 3
     have := h 0 (by decide)
     revert this
     decide
+
+/-- runs in context: a run behind an equal value (`1 1 ... 6`: not confusing, short form), a constant
+    run of strings, a run with step -2 behind another int (`10 8 ... 2`), a run behind a value of
+    another type (`-4 ... -10`) -/
+def exRunSegs : List RSeg :=
+  [.tok (.int .i 1), .irun 1 1 6, .crun 5 (.str .s (some (lit "ab"))), .tok (.int .i 3), .irun 10 (-2) 5, .tok (.flag .T),
+   .irun (-4) (-1) 7]
+
+example : PrinterSegments defaultOpt exRunSegs := by
+  unfold exRunSegs
+  refine .tok _ _ (by unfold ScalarInDomain; omega) (by simp [MidnightTime]) (by decide +kernel) ?_
+  refine .irun _ _ _ _ (by decide) (by decide) (by intro k hk; omega) (by decide) (fun _ => by decide) (by decide +kernel) ?_
+  refine .crun _ _ _ (by show ∀ b ∈ lit "ab", StrByteOK b; decide +kernel) (by simp [MidnightTime]) (by decide) (by decide)
+    (by decide +kernel) ?_
+  refine .tok _ _ (by unfold ScalarInDomain; omega) (by simp [MidnightTime]) (by decide +kernel) ?_
+  refine .irun _ _ _ _ (by decide) (by decide) (by intro k hk; omega) (by decide) (fun _ => by decide) (by decide +kernel) ?_
+  refine .tok _ _ trivial (by simp [MidnightTime]) (by decide +kernel) ?_
+  refine .irun _ _ _ _ (by decide) (by decide) (by intro k hk; omega) (by decide) (fun _ => by decide) (by decide +kernel) ?_
+  exact .nil
+
+example : (printArgVals defaultOpt (cellsAll exRunSegs) ⟨[], 0⟩).map (fun r => (r.1.out, r.2)) =
+    .ok (lit "1 1 ... 6 5x\"ab\" 3 10 8 ... 2 true -4 ... -10", 45) := by
+  decide +kernel
+
+example : scannedAll none exRunSegs =
+    [.int .i 1, .rep 6 1, .int .i 1, .int .i 1, .rep 5 0, .str .s (some (lit "ab")), .int .i 3,
+     .int .i 10, .rep 4 1, .int .i (-2), .int .i 8, .flag .T, .rep 7 1, .int .i (-1), .int .i (-4)] := by
+  decide +kernel
 
 /-- an address with characters outside the usual path alphabet is an address of the domain -/
 example : AddrOK (lit "/mixer/ch:3/gain+1") := by
